@@ -81,6 +81,8 @@ func Judge(prop string, p *sdl.Program, cfg map[string]string, runs []*Obs) []Vi
 			}
 			return w.CheckConfigStages(o)
 		})
+	case "C11":
+		perRun(func(o *Obs) []Violation { return w.CheckFrameAndTags(o) })
 	case "C14":
 		perRun(func(o *Obs) []Violation { return w.CheckClose(o) })
 	case "C10":
